@@ -17,6 +17,7 @@ for f in ours["findings"]:
 for f in theirs["findings"]:
     ids[f["id"]] = f
 out = {"findings": sorted(ids.values(), key=lambda f: (f["property"], f["id"]))}
+out["fixed"] = ["fixed: property=%s %s %s (%s)" % (f["property"], f["status"][7:], (f.get("what") or "")[:160].replace("\n", " "), f["id"]) for f in out["findings"] if f["status"].startswith("fixed")]
 json.dump(out, open("known_findings.json", "w"), indent=1, ensure_ascii=False)
 print("known_findings union:", len(out["findings"]))
 PY
